@@ -78,7 +78,7 @@ class Agg:
         self.visited.update(r.get("state_hashes", ()))
         if r.get("word"):
             self.words.add(r["word"])
-        if r.get("idx", 0) >= runner.SYSTEMATIC_BASE:
+        if runner.PINNED_BASE > r.get("idx", 0) >= runner.SYSTEMATIC_BASE:
             self.sys_total += 1
             if r.get("word") == runner.systematic_words()[r["idx"] - runner.SYSTEMATIC_BASE]:
                 self.sys_exact += 1
@@ -163,6 +163,8 @@ def run_batch(prop: str, tier: str, seed: int, n_runs: int | None, budget_s: flo
     pending = set()
     # systematic layer (C02, both tiers): every {E,U,R}-word up to length 6, once
     sys_left = []
+    if prop in runner.PINNED:
+        sys_left = [(runner.PINNED_BASE, len(runner.PINNED[prop]))]
     if prop == "C02":
         n_words = len(runner.systematic_words())
         sys_left = [(runner.SYSTEMATIC_BASE + i, min(CHUNK * 4, n_words - i)) for i in range(0, n_words, CHUNK * 4)]
